@@ -81,6 +81,35 @@ func stateFamily(c *Ctx) []*ssa.Function {
 			roots = append(roots, f)
 		}
 	}
+	// methods the encoders and decoders call by reflection (UnmarshalXML, UnmarshalText, MarshalJSON, ...) on
+	// the types of the anchors' packages: no call site names them, so they are roots of their own
+	pkgs := map[string]bool{}
+	for _, a := range stateAnchors[c.Prop] {
+		pkgs[a[0]] = true
+	}
+	for rel := range pkgs {
+		sp := c.W.spkg(rel)
+		if sp == nil {
+			continue
+		}
+		for _, m := range sp.Members {
+			t, isT := m.(*ssa.Type)
+			if !isT {
+				continue
+			}
+			for _, recv := range []types.Type{t.Type(), types.NewPointer(t.Type())} {
+				ms := c.W.Prog.MethodSets.MethodSet(recv)
+				for k := 0; k < ms.Len(); k++ {
+					switch ms.At(k).Obj().Name() {
+					case "UnmarshalXML", "UnmarshalJSON", "UnmarshalText", "UnmarshalXMLAttr", "MarshalXML", "MarshalJSON", "MarshalText":
+						if f := c.W.Prog.MethodValue(ms.At(k)); f != nil && f.Blocks != nil {
+							roots = append(roots, f)
+						}
+					}
+				}
+			}
+		}
+	}
 	var out []*ssa.Function
 	for _, g := range funcsSorted(reachable(roots...)) {
 		if g.Blocks == nil || !inModule(g) || g.Synthetic != "" {
@@ -96,6 +125,7 @@ func stateFamily(c *Ctx) []*ssa.Function {
 		// a helper that only package initialisers call (registering the default tables from init()) runs
 		// before any call of the API, once, on one goroutine: its writes are initialisation
 		if initOnly(c.W, g) {
+			initOnlyFns[c] = append(initOnlyFns[c], g)
 			continue
 		}
 		out = append(out, g)
@@ -406,114 +436,7 @@ func stateRules(c *Ctx) {
 			}
 		}
 		// ---- memo keys
-		eachInstr(g, func(i ssa.Instruction) {
-			var k, v ssa.Value
-			var what string
-			switch x := i.(type) {
-			case *ssa.MapUpdate:
-				if gl := globalRoot(x.Map); gl != nil {
-					k, v, what = x.Key, x.Value, gl.Name()
-				}
-			case *ssa.Call:
-				n := calleeName(x)
-				if n == "(*sync.Map).Store" || n == "(*sync.Map).LoadOrStore" || n == "(*sync.Map).Swap" {
-					as := x.Call.Args
-					if len(as) == 3 {
-						if gl := globalRoot(as[0]); gl != nil {
-							k, v, what = as[1], as[2], gl.Name()
-						}
-					}
-				}
-			}
-			if k == nil {
-				return
-			}
-			nMemo++
-			key := "memo-key:" + short1 + "->" + what
-			kt, vt := tb.T(unwrapIface(k)), tb.T(unwrapIface(v))
-			if os.Getenv("DEBUG_STATE") != "" {
-				fmt.Println("DEBUG memo", kt.String(), "=>", vt.String())
-			}
-			kl, _ := argLeaves(kt)
-			vl, vOpaque := argLeaves(vt)
-			// a container built in this function: it depends on everything stored into it
-			for _, extra := range containerContent(g, unwrapIface(v)) {
-				l, o := argLeaves(tb.T(extra))
-				vl = append(vl, l...)
-				vOpaque = vOpaque || o
-			}
-			// a function literal without parameters of its own (a deferred "remember the results"): key and
-			// value are variables of the enclosing function; read them there, in its parameter names
-			pg := g
-			if g.Parent() != nil && len(g.Params) == 0 {
-				if fk, okK := freeLeaves(g, unwrapIface(k)); okK {
-					if fv, okV := freeLeaves(g, unwrapIface(v)); okV {
-						kl, vl, vOpaque, pg = fk, fv, false, g.Parent()
-					}
-				}
-			}
-			var missing []string
-			seen := map[string]bool{}
-			for _, l := range vl {
-				covered := false
-				for _, kk := range kl {
-					if l == kk || strings.HasPrefix(l, kk+".") || strings.HasPrefix(l, kk+"[]") {
-						covered = true
-					}
-				}
-				if !covered && !seen[l] {
-					seen[l] = true
-					missing = append(missing, l)
-				}
-			}
-			sort.Strings(missing)
-			// a value read from the file system is not a function of the key at all: the file can change
-			readsFile := ""
-			vt.walk(func(x *Term) {
-				if x.Op == "call" {
-					switch x.Name {
-					case "os.ReadFile", "io/ioutil.ReadFile", "os.Open", "os.OpenFile":
-						readsFile = x.Name
-					}
-				}
-			})
-			// ... also when the value went through a decoder that hides its input: the same function opens
-			// or reads the file named by (a part of) the key
-			if readsFile == "" && len(kl) > 0 {
-				eachInstr(g, func(j ssa.Instruction) {
-					cj, ok := j.(ssa.CallInstruction)
-					if !ok {
-						return
-					}
-					switch n := calleeName(cj); n {
-					case "os.ReadFile", "io/ioutil.ReadFile", "os.Open", "os.OpenFile":
-						if len(cj.Common().Args) == 0 {
-							return
-						}
-						pl, _ := argLeaves(tb.T(cj.Common().Args[0]))
-						for _, a := range pl {
-							for _, b := range kl {
-								if a == b {
-									readsFile = n
-								}
-							}
-						}
-					}
-				})
-			}
-			switch {
-			case readsFile != "":
-				c.bad("STATE", key, i.Pos(), fmt.Sprintf("%s remembers in package-level %s what it read through %s: the file is not an argument, so a later call for the same key returns the remembered content although the file has changed (and every caller shares the remembered value)", short1, what, readsFile))
-			case len(missing) > 0 && len(kl) > 0:
-				c.bad("STATE", key, i.Pos(), fmt.Sprintf("%s remembers in package-level %s, under a key computed from %s, a value computed from %s: a later call whose arguments agree in the key but differ there is answered with the earlier call's value", short1, what, strings.Join(pretty(pg, kl), ", "), strings.Join(pretty(pg, missing), ", ")))
-			case len(missing) > 0:
-				c.undecided("STATE", key, i.Pos(), fmt.Sprintf("%s remembers a value computed from %s in package-level %s; what the key is computed from is not visible", short1, strings.Join(pretty(pg, missing), ", "), what))
-			case vOpaque:
-				c.undecided("STATE", key, i.Pos(), fmt.Sprintf("%s remembers a value in package-level %s; not everything the value is computed from is visible", short1, what))
-			default:
-				c.ok("STATE", key, i.Pos(), fmt.Sprintf("everything the remembered value is computed from (%s) is part of the key (%s)", strings.Join(pretty(pg, vl), ", "), strings.Join(pretty(pg, kl), ", ")))
-			}
-		})
+		nMemo += memoKeys(c, g, tb, short1, false)
 		// ---- data used as a format string
 		eachInstr(g, func(i ssa.Instruction) {
 			ci, ok := i.(ssa.CallInstruction)
@@ -666,6 +589,8 @@ func stateRules(c *Ctx) {
 		goSharedMap(c, g, short1)
 		// ---- a decoder pointed at memory shared with package state
 		decodeIntoShared(c, g, short1)
+		// ---- a line scanner with the default token limit
+		scannerLimit(c, g, short1)
 	}
 	// parsers that link features to a local Sequence (shared by C01, C14, C15)
 	switch c.Prop {
@@ -676,6 +601,11 @@ func stateRules(c *Ctx) {
 	case "C15":
 		parentFilled(c, "STATE", c.W.fn("io/polyjson", "Parse"))
 	}
+	// functions that only initialisers call: a memo inside them (looked up and stored) still needs a complete key
+	for _, g := range initOnlyFns[c] {
+		nMemo += memoKeys(c, g, newDeepTB(g), strings.TrimPrefix(fname(g), "poly/"), true)
+	}
+	delete(initOnlyFns, c)
 	c.ok("STATE", "family examined", fam[0].Pos(), fmt.Sprintf("%d functions reachable from the anchors examined: %d writes to package-level memory, %d remembered values, %d pooled objects, %d goroutines started on function literals", len(fam), nWrites, nMemo, nPool, nGo))
 }
 
@@ -922,6 +852,87 @@ func poolAlias(c *Ctx, g *ssa.Function, short1 string) int {
 					}
 				}
 			})
+		}
+		// the content of a pooled *[]T is the pooled memory too
+		for changed := true; changed; {
+			changed = false
+			eachInstr(g, func(j ssa.Instruction) {
+				if ld, ok := j.(*ssa.UnOp); ok && ld.Op.String() == "*" && obj[ld.X] && !derived[ld] {
+					if _, isSlice := ld.Type().Underlying().(*types.Slice); isSlice {
+						derived[ld], changed = true, true
+					}
+				}
+				switch x := j.(type) {
+				case *ssa.Slice:
+					if derived[x.X] && !derived[x] {
+						derived[x], changed = true, true
+					}
+				case *ssa.Phi:
+					if !derived[x] {
+						for _, e := range x.Edges {
+							if derived[e] {
+								derived[x], changed = true, true
+							}
+						}
+					}
+				case *ssa.Call:
+					if calleeName(x) == "builtin:append" && len(x.Call.Args) > 0 && derived[x.Call.Args[0]] && !derived[x] {
+						derived[x], changed = true, true
+					}
+				}
+			})
+		}
+		// ... and a record or list that holds such a slice carries it: local records it is stored into, lists
+		// those records are appended to
+		carries := map[ssa.Value]bool{}
+		for v := range derived {
+			carries[v] = true
+		}
+		for changed := true; changed; {
+			changed = false
+			eachInstr(g, func(j ssa.Instruction) {
+				switch x := j.(type) {
+				case *ssa.Store:
+					if !carries[x.Val] {
+						return
+					}
+					if a, _, isLocal := rootAlloc(x.Addr); isLocal && !obj[x.Addr] && !carries[a] {
+						carries[a], changed = true, true
+					}
+				case *ssa.UnOp:
+					if x.Op.String() == "*" && carries[x.X] && !carries[x] {
+						carries[x], changed = true, true
+					}
+				case *ssa.Call:
+					if calleeName(x) == "builtin:append" && !carries[x] {
+						for _, a := range x.Call.Args {
+							if carries[a] {
+								carries[x], changed = true, true
+							}
+						}
+					}
+				case *ssa.Slice:
+					if carries[x.X] && !carries[x] {
+						carries[x], changed = true, true
+					}
+				case *ssa.Phi:
+					if !carries[x] {
+						for _, e := range x.Edges {
+							if carries[e] {
+								carries[x], changed = true, true
+							}
+						}
+					}
+				}
+			})
+		}
+		for _, r := range returnsOf(g) {
+			for _, res := range r.Results {
+				if carries[res] && !derived[res] {
+					c.bad("STATE", "pool:"+short1, get.Pos(), fmt.Sprintf("%s returns a value that holds a slice of an object it hands back to a sync.Pool: the next call that takes the object from the pool overwrites those elements while the caller still uses them", short1))
+					return
+				}
+			}
 		}
 		for _, r := range returnsOf(g) {
 			for _, res := range r.Results {
@@ -1847,6 +1858,41 @@ func unflushedWriter(c *Ctx, g *ssa.Function, short1 string) {
 			}
 		}
 		follow(mk)
+		// flushed by a deferred call that was registered BEFORE the deferred Close of what it writes to: deferred
+		// calls run last-in-first-out, so the file is closed first and the flush fails silently
+		if !escapes && writes > 0 && len(mk.Call.Args) > 0 {
+			under := unwrapIface(mk.Call.Args[0])
+			var dFlush, dClose *ssa.Defer
+			plainFlush := false
+			eachInstr(g, func(j ssa.Instruction) {
+				switch x := j.(type) {
+				case *ssa.Defer:
+					n := calleeName(x)
+					if n == "(*bufio.Writer).Flush" && len(x.Call.Args) > 0 && x.Call.Args[0] == ssa.Value(mk) {
+						dFlush = x
+					}
+					if strings.HasSuffix(n, ".Close") {
+						var recv ssa.Value
+						if x.Call.IsInvoke() {
+							recv = unwrapIface(x.Call.Value)
+						} else if len(x.Call.Args) > 0 {
+							recv = unwrapIface(x.Call.Args[0])
+						}
+						if recv == under {
+							dClose = x
+						}
+					}
+				case *ssa.Call:
+					if calleeName(x) == "(*bufio.Writer).Flush" && len(x.Call.Args) > 0 && x.Call.Args[0] == ssa.Value(mk) {
+						plainFlush = true
+					}
+				}
+			})
+			if dFlush != nil && dClose != nil && !plainFlush && domInstr(dFlush, dClose) {
+				c.bad("STATE", "unflushed-writer:"+short1, dFlush.Pos(), fmt.Sprintf("%s defers the Flush of its bufio.Writer before it defers the Close of the file underneath: deferred calls run in reverse order, so the file is closed first and what is still in the buffer (all of it, for output smaller than the buffer) is never written", short1))
+				return
+			}
+		}
 		if escapes || flushed || writes == 0 {
 			return
 		}
@@ -2455,6 +2501,10 @@ func rangeDelete(c *Ctx, g *ssa.Function, short1 string) {
 	})
 }
 
+
+// initOnlyFns: the functions of a property's family that only initialisers call (kept apart: their writes to
+// package state are initialisation, but a memo inside them still needs a complete key).
+var initOnlyFns = map[*Ctx][]*ssa.Function{}
 
 var initOnlyMemo = map[*World]map[*ssa.Function]bool{}
 var initCallers = map[*World]map[*ssa.Function][]*ssa.Function{}
@@ -3431,5 +3481,247 @@ func decodeIntoShared(c *Ctx, g *ssa.Function, short1 string) {
 				return
 			}
 		}
+	})
+}
+
+// memoKeys: the memo-key rule for one function (see stateRules). With requireLookup the store only counts as
+// a memo when the same function also looks the package-level map up (a registration that only stores is not
+// a memo). Returns the number of remembered values examined.
+func memoKeys(c *Ctx, g *ssa.Function, tb *TermBuilder, short1 string, requireLookup bool) int {
+	nMemo := 0
+	eachInstr(g, func(i ssa.Instruction) {
+		var k, v ssa.Value
+		var what string
+		var memoGlobal *ssa.Global
+		switch x := i.(type) {
+		case *ssa.MapUpdate:
+			if gl := globalRoot(x.Map); gl != nil {
+				k, v, what, memoGlobal = x.Key, x.Value, gl.Name(), gl
+			}
+		case *ssa.Call:
+			n := calleeName(x)
+			if n == "(*sync.Map).Store" || n == "(*sync.Map).LoadOrStore" || n == "(*sync.Map).Swap" {
+				as := x.Call.Args
+				if len(as) == 3 {
+					if gl := globalRoot(as[0]); gl != nil {
+						k, v, what, memoGlobal = as[1], as[2], gl.Name(), gl
+					}
+				}
+			}
+		}
+		if k == nil {
+			return
+		}
+		if requireLookup {
+			looked := false
+			eachInstr(g, func(j ssa.Instruction) {
+				// ... and hands back what it finds there (a duplicate test that only reads the ok flag is not a memo)
+				var found ssa.Value
+				switch y := j.(type) {
+				case *ssa.Lookup:
+					if globalRoot(y.X) == memoGlobal {
+						found = y
+					}
+				case *ssa.Call:
+					if n := calleeName(y); (n == "(*sync.Map).Load" || n == "(*sync.Map).LoadOrStore") && len(y.Call.Args) > 0 && globalRoot(y.Call.Args[0]) == memoGlobal {
+						found = y
+					}
+				}
+				if found == nil {
+					return
+				}
+				seenF := map[ssa.Value]bool{}
+				var toReturn func(v ssa.Value, d int) bool
+				toReturn = func(v ssa.Value, d int) bool {
+					if seenF[v] || v.Referrers() == nil || d > 8 {
+						return false
+					}
+					seenF[v] = true
+					for _, r := range *v.Referrers() {
+						switch z := r.(type) {
+						case *ssa.Return:
+							return true
+						case *ssa.Extract:
+							if z.Index == 0 && toReturn(z, d+1) {
+								return true
+							}
+						case *ssa.TypeAssert, *ssa.Phi, *ssa.Field, *ssa.ChangeType, *ssa.MakeInterface, *ssa.UnOp:
+							if toReturn(z.(ssa.Value), d+1) {
+								return true
+							}
+						case *ssa.Store:
+							// kept in a local that is returned later
+							if a, isA := z.Addr.(*ssa.Alloc); isA && z.Val == v && toReturn(a, d+1) {
+								return true
+							}
+						}
+					}
+					return false
+				}
+				if toReturn(found, 0) {
+					looked = true
+				}
+			})
+			if !looked {
+				return
+			}
+		}
+		nMemo++
+		key := "memo-key:" + short1 + "->" + what
+		kt, vt := tb.T(unwrapIface(k)), tb.T(unwrapIface(v))
+		if os.Getenv("DEBUG_STATE") != "" {
+			fmt.Println("DEBUG memo", kt.String(), "=>", vt.String())
+		}
+		kl, _ := argLeaves(kt)
+		vl, vOpaque := argLeaves(vt)
+		// a container built in this function: it depends on everything stored into it
+		for _, extra := range containerContent(g, unwrapIface(v)) {
+			l, o := argLeaves(tb.T(extra))
+			vl = append(vl, l...)
+			vOpaque = vOpaque || o
+		}
+		// a function literal without parameters of its own (a deferred "remember the results"): key and
+		// value are variables of the enclosing function; read them there, in its parameter names
+		pg := g
+		if g.Parent() != nil && len(g.Params) == 0 {
+			if fk, okK := freeLeaves(g, unwrapIface(k)); okK {
+				if fv, okV := freeLeaves(g, unwrapIface(v)); okV {
+					kl, vl, vOpaque, pg = fk, fv, false, g.Parent()
+				}
+			}
+		}
+		// a parameter the function writes THROUGH (a receiver it fills, an out-parameter) is an output: what
+		// is read back from it is what this call put there, not a second input the key would have to cover
+		outParam := map[string]bool{}
+		for pi, par := range pg.Params {
+			if _, isPtr := par.Type().Underlying().(*types.Pointer); !isPtr || par.Referrers() == nil {
+				continue
+			}
+			for _, r := range *par.Referrers() {
+				switch x := r.(type) {
+				case *ssa.Store:
+					if x.Addr == ssa.Value(par) {
+						outParam[fmt.Sprintf("p%d", pi)] = true
+					}
+				case *ssa.FieldAddr:
+					if x.Referrers() != nil {
+						for _, rr := range *x.Referrers() {
+							if st, isSt := rr.(*ssa.Store); isSt && st.Addr == ssa.Value(x) {
+								outParam[fmt.Sprintf("p%d", pi)] = true
+							}
+						}
+					}
+				}
+			}
+		}
+		var missing []string
+		seen := map[string]bool{}
+		for _, l := range vl {
+			root := l
+			if k := strings.IndexAny(l, ".["); k > 0 {
+				root = l[:k]
+			}
+			if outParam[root] {
+				continue
+			}
+			covered := false
+			for _, kk := range kl {
+				if l == kk || strings.HasPrefix(l, kk+".") || strings.HasPrefix(l, kk+"[]") {
+					covered = true
+				}
+			}
+			if !covered && !seen[l] {
+				seen[l] = true
+				missing = append(missing, l)
+			}
+		}
+		sort.Strings(missing)
+		// a value read from the file system is not a function of the key at all: the file can change
+		readsFile := ""
+		vt.walk(func(x *Term) {
+			if x.Op == "call" {
+				switch x.Name {
+				case "os.ReadFile", "io/ioutil.ReadFile", "os.Open", "os.OpenFile":
+					readsFile = x.Name
+				}
+			}
+		})
+		// ... also when the value went through a decoder that hides its input: the same function opens
+		// or reads the file named by (a part of) the key
+		if readsFile == "" && len(kl) > 0 {
+			eachInstr(g, func(j ssa.Instruction) {
+				cj, ok := j.(ssa.CallInstruction)
+				if !ok {
+					return
+				}
+				switch n := calleeName(cj); n {
+				case "os.ReadFile", "io/ioutil.ReadFile", "os.Open", "os.OpenFile":
+					if len(cj.Common().Args) == 0 {
+						return
+					}
+					pl, _ := argLeaves(tb.T(cj.Common().Args[0]))
+					for _, a := range pl {
+						for _, b := range kl {
+							if a == b {
+								readsFile = n
+							}
+						}
+					}
+				}
+			})
+		}
+		switch {
+		case readsFile != "":
+			c.bad("STATE", key, i.Pos(), fmt.Sprintf("%s remembers in package-level %s what it read through %s: the file is not an argument, so a later call for the same key returns the remembered content although the file has changed (and every caller shares the remembered value)", short1, what, readsFile))
+		case len(missing) > 0 && len(kl) > 0:
+			c.bad("STATE", key, i.Pos(), fmt.Sprintf("%s remembers in package-level %s, under a key computed from %s, a value computed from %s: a later call whose arguments agree in the key but differ there is answered with the earlier call's value", short1, what, strings.Join(pretty(pg, kl), ", "), strings.Join(pretty(pg, missing), ", ")))
+		case len(missing) > 0:
+			c.undecided("STATE", key, i.Pos(), fmt.Sprintf("%s remembers a value computed from %s in package-level %s; what the key is computed from is not visible", short1, strings.Join(pretty(pg, missing), ", "), what))
+		case vOpaque:
+			c.undecided("STATE", key, i.Pos(), fmt.Sprintf("%s remembers a value in package-level %s; not everything the value is computed from is visible", short1, what))
+		default:
+			c.ok("STATE", key, i.Pos(), fmt.Sprintf("everything the remembered value is computed from (%s) is part of the key (%s)", strings.Join(pretty(pg, vl), ", "), strings.Join(pretty(pg, kl), ", ")))
+		}
+	})
+	return nMemo
+}
+
+// scannerLimit: a bufio.Scanner that reads the input line by line with the default 64 KiB token limit (no
+// Buffer call, default splitting): the first longer line ends the scan without an error and the rest of the
+// input is dropped. (C13 and C16 have this rule of their own, SCANCAP.)
+func scannerLimit(c *Ctx, g *ssa.Function, short1 string) {
+	if c.Prop == "C13" || c.Prop == "C16" {
+		return
+	}
+	eachInstr(g, func(i ssa.Instruction) {
+		mk, ok := i.(*ssa.Call)
+		if !ok || calleeName(mk) != "bufio.NewScanner" || mk.Referrers() == nil {
+			return
+		}
+		buffered, split, scans, other := false, false, 0, false
+		for _, r := range *mk.Referrers() {
+			ci, isCall := r.(ssa.CallInstruction)
+			if !isCall {
+				if _, isDbg := r.(*ssa.DebugRef); !isDbg {
+					other = true // kept in a record, handed on: configured elsewhere perhaps
+				}
+				continue
+			}
+			switch calleeName(ci) {
+			case "(*bufio.Scanner).Buffer":
+				buffered = true
+			case "(*bufio.Scanner).Split":
+				split = true
+			case "(*bufio.Scanner).Scan":
+				scans++
+			case "(*bufio.Scanner).Text", "(*bufio.Scanner).Bytes", "(*bufio.Scanner).Err":
+			default:
+				other = true
+			}
+		}
+		if buffered || split || other || scans == 0 {
+			return
+		}
+		c.bad("STATE", "scanner-limit:"+short1, mk.Pos(), fmt.Sprintf("%s reads its input line by line through a bufio.Scanner with the default 64 KiB token limit: the first line longer than that (a long sequence or base string on one line) ends the scan without an error, and everything from there on is dropped", short1))
 	})
 }
